@@ -23,7 +23,7 @@ PY = "/venv/bin/python" if os.path.exists("/venv/bin/python") else sys.executabl
 # properties whose statement quantifies over PYTHONHASHSEED: replicas of the same
 # workload run under several hash seeds and their result digests are compared
 HASH_PROPS = {"C09": (0, 1, 2), "C12": (0, 1, 2), "C10": (0, 7), "C13": (0, 5), "C14": (0, 3)}
-THOROUGH_PARTS = 12
+THOROUGH_PARTS = 16
 THOROUGH_HASHSEEDS = (0, 1, 2, 3)
 WATCHDOG_S = {"quick": 900, "thorough": 3600}
 
